@@ -168,6 +168,11 @@ def families(tier):
     # test must be part of the emitted check (the argument's class may come from the other branch)
     fam.append(([[(bool & Dependent[int, positive]) | L(5)]], [(int,), (bool,)]))
     fam.append(([[(bool & Dependent[int, positive]) | Dependent[int, big]], [L(7)]], [(int,), (bool,)]))
+    # a class-check type (HasMethod / class_check / Exactly / StrictSubclass) combined with a value-dependent type
+    from ovld.types import HasMethod
+
+    fam.append(([[HasMethod["__add__"] & Dependent[int, positive]], [int]], [(int,), (bool,)]))
+    fam.append(([[Dependent[int, positive] & HasMethod["bit_length"]]], [(int,)]))
     # keyword-only parameters in the value dispatcher (conditions on them; passed on as keywords on every path)
     fam.append(([[Dependent[int, positive], KW("k", object)], [Dependent[int, even], KW("k", object)], [int, KW("k", object)]], [(int, KW("k", str))]))
     fam.append(([[int, KW("mode", L("r"))], [int, KW("mode", L("w"))]], [(int, KW("mode", str))]))
